@@ -224,7 +224,21 @@ def stress_oracle(d, which):
             if old:
                 bad.append(f"follower {name} (tail) was sent historical frames {old[:3]}")
         for f in d["followers"]:
-            if "p" in f["items"] and f["name"] != "limit9hb":
+            if "p" in f["items"] and f["name"] not in ("limit9hb", "hb_tail_limit7", "hb_tail"):
                 bad.append(f"follower {f['name']}: received pulses it did not ask for")
+        # heartbeat subscribers: pulses are theirs alone and do not count against the limit
+        if "hb_tail_limit7" in fol:
+            got = reals("hb_tail_limit7")
+            if len(got) != 7 and len(final_ids) + len(eph) > 50:
+                bad.append(f"follower hb_tail_limit7 (heartbeat, tail, limit 7): {len(got)} real frames delivered with "
+                           f"{fol['hb_tail_limit7']['items'].count('p')} pulses (the limit counts frames, not pulses)")
+            if len(got) == 7 and not fol["hb_tail_limit7"]["closed"]:
+                bad.append("follower hb_tail_limit7: limit reached but the stream never ended")
+        if "hb_tail" in fol:
+            if fol["hb_tail"]["items"].count("p") == 0 and d.get("write_s", 0) > 0.2:
+                bad.append("follower hb_tail asked for a heartbeat every 15 ms and received no pulse")
+            wrong = [i for i, c in reals("hb_tail") if c != ctxs[1]]
+            if wrong:
+                bad.append(f"follower hb_tail: frames of another context delivered: {wrong[:3]}")
         # synthetic frames never stored
     return bad
